@@ -821,6 +821,7 @@ func Catalogue(prop, tier string) []Cfg {
 		rc("v1", func(c *Cfg) { c.N = []int{1}; c.Stop = "stop"; c.OutCap, c.FbCap = 1, 1 })
 		rc("v1", func(c *Cfg) { c.N = []int{1}; c.Stop = "cancel" })
 		rc("v1", func(c *Cfg) { c.N = []int{1}; c.Script = 2 })
+		rc("v1", func(c *Cfg) { c.N = []int{1}; c.Script = 2; c.Mode = "unbufadd" }) // two goroutines add unbuffered inputs to a discipline that has none
 		rc("v1", func(c *Cfg) { c.N = []int{1}; c.Stop = "both" })
 		rc("s1", func(c *Cfg) { c.N = []int{1} })
 		rc("s1", func(c *Cfg) { c.N = []int{1}; c.Stop = "stop" })
